@@ -10,6 +10,10 @@ package main
 // implementation's balances directly.
 
 import (
+	"encoding/json"
+	wasmvmtypes "github.com/CosmWasm/wasmvm/types"
+	"github.com/jackalLabs/canine-chain/v4/wasmbinding"
+	"github.com/jackalLabs/canine-chain/v4/wasmbinding/bindings"
 	"crypto/sha256"
 	"encoding/hex"
 	"fmt"
@@ -286,10 +290,41 @@ func (h *c12Hist) buy(buyer int, days, gbs int64) bool {
 }
 
 func (h *c12Hist) post(buyer int, size, maxProofs, blocks int64) bool {
+	return h.postVia(buyer, size, maxProofs, blocks, false)
+}
+
+// postVia: the pay-once post as a transaction, or as the custom wasm message a contract with that address sends
+// (wasmd commits what the message plugin did when the plugin reports no error, and drops it otherwise)
+func (h *c12Hist) postVia(buyer int, size, maxProofs, blocks int64, contract bool) bool {
 	pre := h.observe()
 	a := Acct(buyer)
-	res := h.e.Run(&storagetypes.MsgPostFile{Creator: a.String(), Merkle: h.r.Rng.Bytes(32), FileSize: size, ProofType: 0, MaxProofs: maxProofs, Expires: h.height + blocks, Note: "{}"})
-	desc := map[string]interface{}{"op": "PostFile", "buyer": buyer, "size": size, "max_proofs": maxProofs, "expires_in": blocks, "height": h.height, "time": h.now.Format(time.RFC3339Nano), "out": res.Out}
+	msg := &storagetypes.MsgPostFile{Creator: a.String(), Merkle: h.r.Rng.Bytes(32), FileSize: size, ProofType: 0, MaxProofs: maxProofs, Expires: h.height + blocks, Note: "{}"}
+	var res MsgResult
+	if contract {
+		res = MsgResult{Out: OutOk}
+		js, _ := json.Marshal(bindings.JackalMsg{PostFile: msg})
+		m := wasmbinding.CustomMessageDecorator(&h.e.App.FileTreeKeeper, &h.e.App.StorageKeeper)(nil)
+		cctx, write := h.e.Ctx.CacheContext()
+		var derr error
+		if pn := Guard(func() { _, _, derr = m.DispatchMsg(cctx, a, "", wasmvmtypes.CosmosMsg{Custom: js}) }); pn != "" {
+			res = MsgResult{Out: OutPanic, Err: pn}
+		} else if derr != nil {
+			res = MsgResult{Out: OutFail, Err: derr.Error()}
+		} else {
+			write()
+		}
+	} else {
+		res = h.e.Run(msg)
+	}
+	desc := map[string]interface{}{"op": "PostFile", "by_contract": contract, "buyer": buyer, "size": size, "max_proofs": maxProofs, "expires_in": blocks, "height": h.height, "time": h.now.Format(time.RFC3339Nano), "out": res.Out}
+	if res.Out != OutOk {
+		// a refused post leaves no gauge behind: neither a record nor tokens in an escrow account
+		if post := h.observe(); fmt.Sprint(c12ObsJSON(pre)) != fmt.Sprint(c12ObsJSON(post)) {
+			desc["pre"], desc["post"] = c12ObsJSON(pre), c12ObsJSON(post)
+			h.trace = append(h.trace, desc)
+			h.bad("C12/create/refused-post-left-a-gauge", "a PostFile that was refused changed the gauge records or an escrow balance")
+		}
+	}
 	h.r.Hist("outcomes", "PostFile/"+res.Out)
 	if res.Out != OutOk {
 		desc["err"] = res.Err
@@ -670,6 +705,10 @@ func runC12(r *RunCtx) error {
 		h.direct(cs, end)
 		h.direct(cs, end)
 		h.post(4, 5_000_000_000_000, 3, 14400*3+7)
+		// a contract that cannot pay posts a file of the same size and term in the same block (the gauge id does not
+		// name the creator): refused, and the gauge of the post before it keeps recording exactly what was deposited
+		h.postVia(10, 5_000_000_000_000, 3, 14400*3+7, true)
+		h.postVia(4, 5_000_000_000_000, 3, 14400*3+7, true)
 		h.reward(h.now)
 		h.reward(h.now.Add(100 * time.Second))
 		h.reward(h.now.Add(1))
@@ -792,8 +831,8 @@ func runC12(r *RunCtx) error {
 					case kind == 2:
 						size := PickOne(p, []int64{1, 1_000_000, 5_000_000_000, 5_000_000_000_000})
 						blocks := PickOne(p, []int64{14399, 14400, 14400 * 2, 14400*45 + 13})
-						if h.post(1+p.Intn(8), size, 1+int64(p.Intn(3)), blocks) && p.Chance(1, 3) {
-							h.post(1+p.Intn(8), size, 1, blocks)
+						if h.postVia(1+p.Intn(8), size, 1+int64(p.Intn(3)), blocks, p.Chance(1, 4)) && p.Chance(1, 3) {
+							h.postVia(PickOne(p, []int{1 + p.Intn(8), 10}), size, 1, blocks, p.Chance(1, 3)) // Acct(10) has no money
 						}
 					default:
 						nd := 1 + p.Intn(3)
